@@ -196,11 +196,15 @@ def run(ctx):
                             ok = True
                         elif tt == "self._in_buffer_len == 0" and et == "1":
                             ok = True
-                        elif tt == "pos == -1" and et == "1":
-                            ok = True
-                        elif tt == "needed_bytes > 0":
-                            src = [norm(s.value) for s in walk_own(fn) if isinstance(s, ast.Assign) and norm(s.targets[0]) == "needed_bytes"]
-                            ok = src == [f"{et} - self._in_buffer_len"]
+                        elif isinstance(t, ast.Compare) and isinstance(t.left, ast.Name) and len(t.ops) == 1:
+                            # the guard tests a local: accept it by what that local holds
+                            src = [norm(s.value) for s in walk_own(fn) if isinstance(s, ast.Assign) and norm(s.targets[0]) == t.left.id]
+                            rhs = norm(t.comparators[0])
+                            if isinstance(t.ops[0], ast.Eq) and rhs == "-1" and et == "1":
+                                # `.find(b"\n")` returned -1: the terminator has not arrived, at least one more byte must
+                                ok = len(src) == 1 and ".find(b'\\n')" in src[0]
+                            elif isinstance(t.ops[0], ast.Gt) and rhs == "0":
+                                ok = src == [f"{et} - self._in_buffer_len"]
                         ctx.check("R3-need-more-guard", f"{PF}:{q}", ok, f"`raise _NeedMoreBytes({et})` is guarded by `{tt}`", construct=f"if {tt}: raise _NeedMoreBytes({et})", message=f"_NeedMoreBytes({et}) is raised under `{tt}`, which does not show that fewer than {et} bytes are buffered: the decoder would ask for bytes the message may not contain")
     for q, fn in mod.functions().items():
         tot = sum(1 for n in walk_own(fn) if isinstance(n, ast.Raise) and isinstance(n.exc, ast.Call) and norm(n.exc.func) == "_NeedMoreBytes")
